@@ -347,7 +347,20 @@ def _content(rng, fonts, xobjs, css, gss, pats, props, inline=True):
     w(b"BX /unknownop EX")
     w(b"Q")
     rng.shuffle(o) if rng.random() < 0.15 else None
+    if inline and rng.random() < 0.35:
+        # degenerate inline images at the very end of the stream (whatever they yield — a value or an error — nothing follows them):
+        # no data at all, only an end-of-line between ID and EI, EI glued to ID, no EI, EI as the last bytes, ID at the end
+        o.append(rng.choice(DEGENERATE_BI))
     return b"\n".join(o) + b"\n"
+
+
+DEGENERATE_BI = [
+    b"BI /W 1 /H 1 /BPC 8 /CS /G ID\nEI", b"BI /W 1 /H 1 /BPC 8 /CS /G ID\r\nEI", b"BI /W 1 /H 1 /BPC 8 /CS /G ID\rEI",
+    b"BI /W 1 /H 1 /BPC 8 /CS /G ID EI", b"BI /W 1 /H 1 /BPC 8 /CS /G IDEI", b"BI /W 0 /H 0 /BPC 8 /CS /G ID\n\nEI",
+    b"BI ID\nEI", b"BI ID EI", b"BI /W 1 /H 1 /BPC 8 /CS /G ID x", b"BI /W 1 /H 1 /BPC 8 /CS /G ID", b"BI /W 1 /H 1 /BPC 8 /CS /G ID\n",
+    b"BI /W 1 /H 1 /BPC 8 /CS /G ID xEI", b"BI /W 1 /H 1 /BPC 8 /CS /G /F /AHx ID >EI", b"BI /W 1 /H 1 /BPC 8 /CS /G /F /AHx ID\nEI",
+    b"BI /W 1 /H 1 /BPC 8 /CS /G /F [/AHx /A85] ID\n~>\nEI", b"BI /W 1 /H 1 ID\nEI Q", b"BI", b"BI /W", b"ID\nEI", b"EI",
+]
 
 
 def _font_descriptor(doc, rng, name, file_key, role):
@@ -1636,6 +1649,22 @@ def objstm_index_cases():
 FOCI = ("pages", "fonts", "images", "color", "catalog")
 
 
+def content_edge_cases():
+    """one small document per degenerate content-stream ending (inline images without data, with only an end-of-line between ID
+    and EI, without EI, cut inside the dictionary; operators cut inside a string / array / dictionary operand): `Content::operations`
+    and `OpBuilder::parse` must answer with a value or an error"""
+    tails = list(DEGENERATE_BI) + [b"(unterminated", b"[1 2 (a", b"<< /K [", b"<41", b"/N", b"1 0 0 1", b"BT (a) Tj", b"BX", b"q " * 40,
+                                   b"1 2 3 4 5 6 7 8 9 10 11 12 13 14 15 16 17 18 19 20 21 22 23 24 25 26 27 28 29 30 31 32 33 cm", b"% comment without end"]
+    for k, t in enumerate(tails):
+        for pre in (b"", b"q 1 0 0 1 0 0 cm Q\n"):
+            data = pre + t
+            objs = {1: {"Type": N("Catalog"), "Pages": Ref(2)},
+                    2: {"Type": N("Pages"), "Kids": [Ref(3)], "Count": 1},
+                    3: {"Type": N("Page"), "Parent": Ref(2), "MediaBox": [0, 0, 9, 9], "Resources": {}, "Contents": Ref(4)},
+                    4: Stream({}, data)}
+            yield "content-edge:%d%s" % (k, "+pre" if pre else ""), W.simple_file(objs, 1)[0]
+
+
 def planted(rng, tier="quick"):
     """iterator of (tag, file bytes): syntactically valid files with a correct cross-reference section whose object graph is hostile"""
     styles = ("table",) if tier == "quick" else ("table", "xstream", "objstm", "incr")
@@ -1646,6 +1675,7 @@ def planted(rng, tier="quick"):
     yield from deep(rng)
     yield from objstm_index_cases()
     yield from page_count_cases()
+    yield from content_edge_cases()
     yield from xref_shapes()
     yield from prefixed(rng)
     yield from specials(rng)
